@@ -132,12 +132,15 @@ func Corpus() []CorpusCase {
 			file(second, "a", object("Thing", prop("b", str("string")))),
 			user)
 	}
-	// outside the language, accepted by the compiler: repeated / optional / required members of a oneof
+	// options of a oneof: an array or a map is rejected (fix a0446fc / 466a7f9), required / optional marks are accepted
+	// (optional says nothing: no proto3_optional on a member of the wrapper's oneof)
 	oneofEl := func(ps ...*Property) *Element {
 		return &Element{Kind: "oneof", N: &Nested{Kind: "oneof", Name: "Ch", Props: ps}}
 	}
 	add("outside-oneof-array-member", "foo.v1", file(foo, "a", oneofEl(prop("a", &Field{Kind: "array", Item: str("string")}), prop("b", str("string")))))
 	add("outside-oneof-required-member", "foo.v1", file(foo, "a", oneofEl(&Property{Name: "a", Required: true, F: str("string")}, prop("b", str("string")))))
+	add("oneof-optional-member", "foo.v1", file(foo, "a", oneofEl(&Property{Name: "a", Optional: true, F: str("string")}, prop("b", str("string"))),
+		&Element{Kind: "oneof", N: &Nested{Kind: "oneof", Name: "Later", Props: []*Property{prop("a", str("string")), {Name: "b", Optional: true, F: str("string")}}}}))
 	add("outside-oneof-map-member", "foo.v1", file(foo, "a", oneofEl(prop("a", &Field{Kind: "map", Item: str("string")}), prop("b", str("string")))))
 	add("outside-empty-oneof", "foo.v1", file(foo, "a", oneofEl()))
 	// outside the language, rejected by the compiler (protocompile: symbol already defined): two
